@@ -235,9 +235,21 @@ def run(tier, seed):
                 o = eff_heads[ek][:1] + rng.sample(o[len(eff_heads[ek][:1]):], len(o) - len(eff_heads[ek][:1]))
             eff_cases.append(Case("c17eff_%s_%d" % (ek, int(with_opt)), "#[::entrait::entrait(%s)] /*@inv*/\n%s\n" % (", ".join(o), item),
                                   meta={"target": ek, "with": with_opt}, run=False, expect="expand"))
+    # `export` (round 19): whatever mock library is selected, with or without a mock_api, the mock attributes are behind a
+    # `cfg_attr(test, ..)` gate without the option and behind none with it (bare, `= true`, or the exporting macro variant)
+    exp_cases = []
+    exp_items = {"fn": "fn target<D>(deps: &D, a: i32) -> i32 { a }", "mod": "mod target { pub fn f<D>(deps: &D) -> u8 { 1 } }"}
+    exp_mocks = [["mockall"], ["mockall = true", "mock_api = M"], ["unimock", "mock_api = M"], ["unimock = true", "mockall", "mock_api = M"]]
+    for ek, item in exp_items.items():
+        for mi, mock in enumerate(exp_mocks):
+            for fi, form in enumerate([None, "export", "export = true", "VARIANT"]):
+                o = ["Foo"] + rng.sample(mock + ([form] if form and form != "VARIANT" else []), len(mock) + (1 if form and form != "VARIANT" else 0))
+                exp_cases.append(Case("c17exp_%s_%d_%d" % (ek, mi, fi), "#[::entrait::%s(%s)] /*@inv*/\n%s\n" % (
+                    "entrait_export" if form == "VARIANT" else "entrait", ", ".join(o), item),
+                    meta={"target": ek, "mock": mi, "form": form}, run=False, expect="expand"))
     for build, unimock in (("off", False), ("on", True)):
         ws = core.Workspace(PROP, build, unimock=unimock, expand_only=True)
-        ws.extend(cases[build] + ((acc_cases + eff_cases) if build == "off" else []))
+        ws.extend(cases[build] + ((acc_cases + eff_cases + exp_cases) if build == "off" else []))
         ws.write()
         ws.build()
     by = {}
@@ -350,5 +362,32 @@ def run(tier, seed):
             rep.violation(b.id, "effect:?Send:rejected:%s" % ek, "`?Send` is documented for %s targets but the invocation was rejected" % ek)
         elif not (nb < na):
             rep.violation(b.id, "effect:?Send:no-effect:%s" % ek, "`?Send` on a %s target with an async fn changes nothing: `Send` occurs %d times in the generated code without it and %d times with it" % (ek, na, nb))
-    core.floors(rep, pairs_compared=n, effect_points=4)
+    def test_gates(c):
+        recs = [r for r in c.records if r["status"] == "end" and r["line"] == c.marks["inv"]]
+        if not recs:
+            raise core.Inconclusive("no record for export case %s" % c.id)
+        out = recs[0]["output"]
+        if "compile_error" in tok.idents(out[:8]):
+            return None
+        return tok.idents(out[len(recs[0]["input"]) - 1:]).count("test")
+    for ek in exp_items:
+        for mi in range(len(exp_mocks)):
+            grp = [c for c in exp_cases if c.meta["target"] == ek and c.meta["mock"] == mi]
+            base = next(c for c in grp if c.meta["form"] is None)
+            by[base.id] = base
+            n0 = test_gates(base)
+            if not n0:
+                continue      # no test gate to lift (or rejected): nothing `export` could be seen doing here
+            for c in grp:
+                if c is base:
+                    continue
+                by[c.id] = c
+                n1 = test_gates(c)
+                rep.bump("export_effect_points")
+                if n1 is None:
+                    rep.violation(c.id, "effect:export:rejected:%s" % ek, "`export` is documented for %s targets but the invocation was rejected" % ek)
+                elif n1 != 0:
+                    rep.violation(c.id, "effect:export:still-test-gated:%s" % ek, "with `%s` and mocks [%s] the generated code of a %s target still mentions `test` %d time(s) (%d without the option): the mock is not exported" % (
+                        c.meta["form"], ", ".join(exp_mocks[mi]), ek, n1, n0))
+    core.floors(rep, pairs_compared=n, effect_points=4, export_effect_points=12)
     return rep.finish(by)
